@@ -76,6 +76,9 @@ def record_xml(cx, prefixes, rng, ind):
     typed_elem = ""
     if kind in SUBTYPES and rng.random() < 0.3:
         name = rng.choice(SUBTYPES[kind])
+        if rng.random() < 0.3:
+            # a subtype element with an extension type of its own
+            typed_elem = ' xsi:type="%s:Staff"' % rng.choice(prefixes)
     elif kind in SUBTYPES and rng.random() < 0.15:
         sub = rng.choice(SUBTYPES[kind])
         sub = {"wasRevisionOf": "Revision", "wasQuotedFrom": "Quotation", "hadPrimarySource": "PrimarySource"}.get(
